@@ -475,6 +475,12 @@ def mutate_class(parts: Sequence[Part], cls: str, rng: random.Random, per_class:
                 emit(f"csize-{label}@{i}", _splice(P, i, [("csize", v)]))
         alls = [(t, b"\n" if b == CRLF and t in ("eol", "eoh", "ceol", "eot", "blank") else b) for t, b in P]
         emit("all-lf", render(alls))
+    elif cls == "inter-junk":     # stray bytes between messages (before every start line but the first, and at the end)
+        starts = [i for i in idx("method", "vers") if i > 0]
+        for i in starts + [len(P)]:
+            for label, j in (("crlf", b"\r\n"), ("lf", b"\n"), ("cr", b"\r"), ("crlfcrlf", b"\r\n\r\n"), ("lflf", b"\n\n"),
+                             ("crcrlf", b"\r\r\n"), ("sp", b" "), ("sp-crlf", b" \r\n"), ("nul", b"\x00")):
+                emit(f"{label}@{i}", render(P[:i] + [("junk", j)] + P[i:]))
     elif cls == "truncate":       # every prefix that ends at a part boundary
         off = offsets(P)
         data = render(P)
@@ -492,12 +498,12 @@ def mutate_class(parts: Sequence[Part], cls: str, rng: random.Random, per_class:
 
 REQUEST_CLASSES = ["cl-te", "cl-repeat", "cl-nondecimal", "te-not-chunked", "te-http10", "bare-lf", "bare-cr", "fold",
                    "ctl", "unicode-ws", "name-ws", "chunk-size", "chunk-ext", "chunk-data-end", "trailer", "host", "request-line",
-                   "truncate"]
+                   "inter-junk", "truncate"]
 RESPONSE_CLASSES = ["cl-te", "cl-repeat", "cl-nondecimal", "te-not-chunked", "bare-cr", "fold", "ctl", "unicode-ws", "name-ws",
-                    "chunk-size", "chunk-ext", "chunk-data-end", "trailer", "status-line", "lax-forms", "truncate"]
+                    "chunk-size", "chunk-ext", "chunk-data-end", "trailer", "status-line", "lax-forms", "inter-junk", "truncate"]
 
 
-CLASS_WEIGHT = {"te-not-chunked": 5, "cl-nondecimal": 4, "cl-te": 2, "cl-repeat": 2, "chunk-size": 3, "unicode-ws": 2}
+CLASS_WEIGHT = {"inter-junk": 3, "te-not-chunked": 5, "cl-nondecimal": 4, "cl-te": 2, "cl-repeat": 2, "chunk-size": 3, "unicode-ws": 2}
 
 
 def random_byte_mutations(data: bytes, rng: random.Random, n: int) -> List[Mut]:
@@ -843,4 +849,66 @@ def long_number_family() -> List[Tuple[str, bytes, str]]:
         for name, digits in (("zeros5", b"0" * (n - 1) + b"5"), ("effs", b"f" * n), ("nines", b"9" * n)):
             out.append((f"chunk-{name}-{n}", b"POST / HTTP/1.1\r\nHost: a\r\nTransfer-Encoding: chunked\r\n\r\n" + digits + b"\r\nhello\r\n0\r\n\r\n", "request"))
             out.append((f"resp-chunk-{name}-{n}", b"HTTP/1.1 200 OK\r\nTransfer-Encoding: chunked\r\n\r\n" + digits + b"\r\nhello\r\n0\r\n\r\n", "response"))
+    return out
+
+
+# ------------------------------------------------------------------ round-2 families: lines between two unequal limits
+def between_limits_family(L: int, F: int) -> List[Tuple[str, bytes, List[List[int]], str]]:
+    """Pipelines in which ONE line (a start line or a field line of the first / second / third message) has a length
+    between the two limits, lo+1 .. hi, every other line being short; both orders (long message first / last).  With
+    line != field the verdict depends only on which kind of line it is - never on which message of a read it is in."""
+    out: List[Tuple[str, bytes, List[List[int]], str]] = []
+    lo, hi = min(L, F), max(L, F)
+    if lo == hi:
+        return out
+    host = b"Host: a\r\n"
+    short_req = b"GET /s HTTP/1.1\r\n" + host + b"\r\n"
+    short_resp = b"HTTP/1.1 200 OK\r\nContent-Length: 0\r\n\r\n"
+    for n in sorted({lo + 1, (lo + hi) // 2, hi - 1, hi}):
+        req_line = b"GET /" + b"a" * (n - len(b"GET / HTTP/1.1")) + b" HTTP/1.1\r\n"
+        fld = b"X: " + b"v" * (n - 3) + b"\r\n"
+        st_line = b"HTTP/1.1 200 " + b"r" * (n - len(b"HTTP/1.1 200 ")) + b"\r\n"
+        long_start = req_line + host + b"\r\n"
+        long_field = b"GET /f HTTP/1.1\r\n" + host + fld + b"\r\n"
+        body_req = b"POST /b HTTP/1.1\r\n" + host + b"Content-Length: 3\r\n\r\nabc"
+        chunk_req = b"POST /c HTTP/1.1\r\n" + host + b"Transfer-Encoding: chunked\r\n\r\n3\r\nabc\r\n0\r\n\r\n"
+        rl_start = st_line + b"Content-Length: 0\r\n\r\n"
+        rl_field = b"HTTP/1.1 200 OK\r\n" + fld + b"Content-Length: 0\r\n\r\n"
+        for kind, longm in (("start", long_start), ("field", long_field)):
+            for label, pre, post in (("alone", b"", b""), ("first", b"", short_req), ("second", short_req, b""),
+                                     ("third", short_req + short_req, short_req), ("after-body", body_req, b""),
+                                     ("after-chunked", chunk_req, short_req)):
+                s = pre + longm + post
+                cuts = [[len(pre)], [len(pre) + 1], [len(pre) + lo], [len(pre) + len(longm)]] if pre or post else [[lo]]
+                out.append((f"between-{kind}-{label}-{n}", s, cuts, "request"))
+        for kind, longm in (("start", rl_start), ("field", rl_field)):
+            for label, pre, post in (("alone", b"", b""), ("first", b"", short_resp), ("second", short_resp, b""),
+                                     ("third", short_resp + short_resp, short_resp)):
+                s = pre + longm + post
+                cuts = [[len(pre)], [len(pre) + lo], [len(pre) + len(longm)]] if pre or post else [[lo]]
+                out.append((f"resp-between-{kind}-{label}-{n}", s, cuts, "response"))
+    return out
+
+
+def header_count_family(H: int) -> List[Tuple[str, bytes, List[List[int]], str]]:
+    """Header blocks with H-3 .. H+1 field lines (so that the block has max_headers-1 / max_headers / max_headers+1 lines
+    under either way of counting) crossed with the body kinds: none, Content-Length, chunked without / with trailers."""
+    out: List[Tuple[str, bytes, List[List[int]], str]] = []
+    for nf in range(max(1, H - 4), H + 2):
+        for bk, te, body in (("none", b"", b""), ("cl", b"Content-Length: 3\r\n", b"abc"),
+                             ("chunked", b"Transfer-Encoding: chunked\r\n", b"3\r\nabc\r\n0\r\n\r\n"),
+                             ("chunked-empty", b"Transfer-Encoding: chunked\r\n", b"0\r\n\r\n"),
+                             ("chunked-trailer", b"Transfer-Encoding: chunked\r\n", b"3\r\nabc\r\n0\r\nT: v\r\n\r\n"),
+                             ("chunked-2trailers", b"Transfer-Encoding: chunked\r\n", b"1\r\na\r\n2\r\nbc\r\n0\r\nT: v\r\nU: w\r\n\r\n")):
+            used = 1 + (1 if te else 0)
+            extra = nf - used
+            if extra < 0:
+                continue
+            fields = b"".join(b"X%d: v\r\n" % i for i in range(extra))
+            follow = b"GET /next HTTP/1.1\r\nHost: a\r\n\r\n"
+            s = b"POST /h HTTP/1.1\r\nHost: a\r\n" + te + fields + b"\r\n" + body + follow
+            out.append((f"header-lines-{nf}-{bk}", s, [], "request"))
+            r = b"HTTP/1.1 200 OK\r\n" + (te or b"Content-Length: 0\r\n") + b"".join(b"X%d: v\r\n" % i for i in range(nf - 1)) + b"\r\n" + body \
+                + b"HTTP/1.1 204 No\r\n\r\n"
+            out.append((f"resp-header-lines-{nf}-{bk}", r, [], "response"))
     return out
